@@ -50,40 +50,88 @@ def derive(rng: random.Random, A: dict, mode: str):
                         break
         return label[s]
 
-    def fresh_key():
+    # integers >= 2^53 must not share a column with float batches (the index level would become float64 and distinct keys
+    # collapse: candidate finding of round 5, reported, not generated)
+    big_ints = any(ty == "int" and abs(k[j]) >= 2**53 for j, ty in enumerate(types) for b in A["batches"] for k in b["keys"])
+    hetero = (any(b.get("repr") for b in A["batches"]) or mode == "history") and not big_ints
+
+    def fresh_key(classes=None):
+        """a key nobody has; its values fit the representation classes of the batch it joins"""
+        gt = []
+        for j, ty in enumerate(types):
+            if ty == "int":
+                gt.append("int-small" if hetero else "int")
+            elif ty == "float" and classes and classes[j] == "int":
+                gt.append("float-whole")
+            else:
+                gt.append(ty)
         for _ in range(200):
-            k = [c03.gen_value(rng, ty, spread * 3) for ty in types]
+            k = [c03.gen_value(rng, g, spread * 3) for g in gt]
             ck = ic.canon_key(types, k)
             if ck not in used:
                 used.add(ck)
                 return k
         return None
 
+    def same_class_repr(classes, keys):
+        """a representation for B's batch in the classes A's batch arrived in (the width may differ: it must not matter)"""
+        out = []
+        for j, cl in enumerate(classes):
+            vals = [k[j] for k in keys]
+            if cl == "int":
+                fits = [d for d, (lo, hi_) in c03.SMALL_INT.items() if all(lo <= v <= hi_ for v in vals)]
+                out.append(rng.choice(["int64", "int64"] + fits))
+            elif cl == "float":
+                out.append("float32" if all(c03._f32_exact(float(v)) for v in vals) and rng.random() < 0.3 else "float64")
+            else:
+                out.append(cl[2:])
+        return out
+
+    def extra_batch(tt, n):
+        """simulants that exist in B only, registered earlier, in a representation of their own (LESSONS.md 13)"""
+        k = [x for x in (fresh_key() for _ in range(n)) if x is not None]
+        if not k:
+            return None
+        nb = {"t": tt, "sims": [relabel(new_sim()) for _ in k], "keys": k, "get": None}
+        if hetero:
+            nb["repr"] = c03.choose_repr(rng, types, k, A.get("tunit", "ns"))
+        return nb
+
     batches = []
-    for b in A["batches"]:
+    if mode == "history" and A["batches"]:
+        t0 = A["batches"][0]["t"]
+        eb = extra_batch([t0[0], t0[1] - (DAY if t0[0] in ("time", "tz") else 1)], rng.randint(1, 4))
+        if eb:
+            batches.append(eb)
+    for bi, b in enumerate(A["batches"]):
+        if mode == "history" and bi == 0 and len(A["batches"]) > 1 and rng.random() < 0.5:
+            continue                                    # A's first registration never happened in B
+        classes = ic.batch_classes(A, b)
         rows = list(zip(b["sims"], b["keys"]))
         if mode in ("subset", "mixed") and len(rows) > 1:
             keep = [r for r in rows if rng.random() < 0.7] or rows[:1]
             rows = keep
         if mode in ("superset", "mixed"):
             for _ in range(rng.randint(1, 4)):
-                k = fresh_key()
+                k = fresh_key(classes)
                 if k is not None:
                     rows.insert(rng.randint(0, len(rows)), (new_sim(), k))
         if mode in ("permute", "mixed", "relabel", "superset"):
             rng.shuffle(rows)
-        if mode in ("relabel", "relabel-affine", "mixed", "superset", "subset"):
+        if mode in ("relabel", "relabel-affine", "mixed", "superset", "subset", "history"):
             rows = [(relabel(s), k) for s, k in rows]
         if mode == "mixed" and rng.random() < 0.3:
             # an extra batch at another clock time in between (other simulants exist earlier)
-            k = [fresh_key() for _ in range(rng.randint(1, 3))]
-            k = [x for x in k if x is not None]
-            if k:
-                tt = [b["t"][0], b["t"][1] - (DAY // 2 if b["t"][0] in ("time", "tz") else 0)]
-                batches.append({"t": tt, "sims": [relabel(new_sim()) for _ in k], "keys": k, "get": None})
+            eb = extra_batch([b["t"][0], b["t"][1] - (DAY // 2 if b["t"][0] in ("time", "tz") else 0)], rng.randint(1, 3))
+            if eb:
+                batches.append(eb)
         if mode == "mixed" and rng.random() < 0.15:
             continue                                    # this batch does not exist in B at all
         nb = {"t": list(b["t"]), "sims": [s for s, _ in rows], "keys": [k for _, k in rows], "get": None}
+        if b.get("bad"):
+            nb["bad"] = dict(b["bad"])
+        if rows and (b.get("repr") or A.get("dtypes") or hetero):
+            nb["repr"] = same_class_repr(classes, nb["keys"])      # the same classes as in A: only then is the hash the same
         # the frame arrives differently in B (LESSONS.md 2, 3): other column order, extra columns, index kind / name
         fr = {}
         if len(types) > 1 and rng.random() < 0.4:
@@ -105,8 +153,7 @@ def derive(rng: random.Random, A: dict, mode: str):
         names = [f"col_{i}" for i in range(len(types))]
         names[rng.randrange(len(types))] = "simulant_index"       # F31: the key column named like IndexMap's own level, in B (too)
         B["names"] = names
-    if mode in ("superset", "mixed") or rng.random() < 0.5:
-        B.pop("dtypes", None)          # B's columns are int64 / float64 whatever A's were: the dtype must not matter either
+    B.pop("dtypes", None)              # every batch of B says itself how it arrives (same classes as A's, any width)
     return B
 
 
@@ -125,12 +172,13 @@ def solo_candidates(histA, histB, limit=3):
             if b.get("bad"):
                 continue
             for k in b["keys"]:
-                where.setdefault(ic.canon_key(types, k), {}).setdefault(side, []).append((tuple(b["t"]), k))
+                where.setdefault(ic.canon_key(types, k), {}).setdefault(side, []).append(
+                    (tuple(b["t"]), k, [ic.repr_of(h, b, j) for j in range(len(types))], ic.batch_classes(h, b)))
     out = []
     for ck in sorted(where, key=str):
         w = where[ck]
-        if len(w.get("a", [])) == 1 and len(w.get("b", [])) == 1 and w["a"][0][0] == w["b"][0][0]:
-            out.append((list(w["a"][0][0]), w["a"][0][1]))
+        if len(w.get("a", [])) == 1 and len(w.get("b", [])) == 1 and w["a"][0][0] == w["b"][0][0] and w["a"][0][3] == w["b"][0][3]:
+            out.append((list(w["a"][0][0]), w["a"][0][1], w["a"][0][2]))
     step = max(1, len(out) // limit)
     return out[::step][:limit]
 
@@ -145,15 +193,15 @@ def run_solo(histA, histB):
     from vivarium.framework.randomness.index_map import IndexMap
     out = []
     names = ic.names_of(histA)
-    for n, (t, k) in enumerate(solo_candidates(histA, histB)):
+    for n, (t, k, reprs) in enumerate(solo_candidates(histA, histB)):
         im = IndexMap(list(names), size=histA["size"])
-        df = ic.mk_frame(histA["cols"], histA.get("tunit", "ns"), [777 + n], [k], names=names)
+        df = ic.mk_frame(histA["cols"], histA.get("tunit", "ns"), [777 + n], [k], names=names, reprs=reprs)   # the batch's OWN representation
         try:
             im.update(df, ic.mk_salt(t, histA.get("tunit", "ns")))
             pos = ic._as_pos(list(im[pd.Index([777 + n])])[0])
         except Exception as e:  # noqa: BLE001
             pos = ic.outcome_of(e)
-        out.append({"t": t, "key": k, "pos": pos})
+        out.append({"t": t, "key": k, "pos": pos, "repr": reprs})
     return out
 
 
@@ -171,7 +219,7 @@ def registrations(hist, recs):
         for i, (s, k) in enumerate(zip(b["sims"], b["keys"])):
             r = raws[i]
             unique = r not in occupied and raws.count(r) == 1
-            out[ic.canon_key(types, k)] = {"t": tuple(b["t"]), "raw": r, "unique": unique, "sim": s}
+            out[ic.canon_key(types, k)] = {"t": tuple(b["t"]), "raw": r, "unique": unique, "sim": s, "cls": ic.batch_classes(hist, b)}
     last = recs[-1] if recs else {}
     final = dict((s, p) for s, p in (last.get("pos") if isinstance(last.get("pos"), list) else last.get("map") or []))
     for v in out.values():
@@ -189,7 +237,7 @@ def oracle_pair(histA, recsA, histB, recsB, solo=()):
             continue
         for side, reg in (("A", ra), ("B", rb)):
             r = reg.get(ck)
-            if r is None or list(r["t"]) != list(so["t"]):
+            if r is None or list(r["t"]) != list(so["t"]) or list(r["cls"]) != [ic.repr_class(x) for x in so["repr"]]:
                 continue
             if r["raw"] != so["pos"]:
                 fails.append({"sig": "first-hash-is-not-the-solo-position",
@@ -200,8 +248,8 @@ def oracle_pair(histA, recsA, histB, recsB, solo=()):
     n_shared = n_free = 0
     for k in ra.keys() & rb.keys():
         a, b = ra[k], rb[k]
-        if a["t"] != b["t"]:
-            continue
+        if a["t"] != b["t"] or a["cls"] != b["cls"]:
+            continue            # another clock time, or the same values in another representation (int / float / datetime unit)
         n_shared += 1
         if a["unique"] and b["unique"]:
             n_free += 1
@@ -232,6 +280,8 @@ def run_sim(case, which):
     births = case["births"][which]
     perm_seed = case["perm"][which]
     var = (case.get("variant") or [{}, {}])[which]
+    het = (case.get("hetero") or {}).get("runs", [None, None])[which]
+    clock_kind = case.get("clock", "datetime")
     created = []
     draws = {}
     clock = []
@@ -268,8 +318,21 @@ def run_sim(case, which):
             if perm_seed is not None:
                 random.Random(perm_seed * 1000 + self.step_no).shuffle(js)
             s = self.step_no
-            df = pd.DataFrame({alias.get("k3", "k3"): [1000 * s + j for j in js], "junk": "x", "k1": [s + j / 64 for j in js],
-                               "k2": d.creation_time}, index=d.index)
+            k1, k2 = [s + j / 64 for j in js], d.creation_time
+            if het:
+                # LESSONS.md 13 (seeded C04-3): the initial cohort and the immigrants carry the key columns in different
+                # representations, and differently in the two simulations. Immigrant j of step s has the whole-number key
+                # 100*s + j in BOTH runs and arrives as `imm` (int64 / float64) in both – these are the shared simulants; the
+                # cohort has fractional float ages in one run and whole ages (as integers or floats) in the other; the
+                # cohort's entrance times may be nanoseconds while later ones are pandas' default unit.
+                if s == 0:
+                    k1 = ([j + 0.25 for j in js] if het["cohort"] == "frac" else pd.Series([j for j in js], dtype=het["cohort"]).to_numpy())
+                    if het.get("cohort_time_ns"):
+                        k2 = pd.Series(k2).astype("datetime64[ns]").to_numpy() if clock_kind != "simple" else k2
+                else:
+                    k1 = pd.Series([100 * s + j for j in js], dtype=case["hetero"]["imm"]).to_numpy()
+            df = pd.DataFrame({alias.get("k3", "k3"): [1000 * s + j for j in js], "junk": "x", "k1": k1,
+                               "k2": k2}, index=d.index)
             parts = [df.iloc[: n // 2], df.iloc[n // 2:]] if var.get("split") and n > 1 else [df]
             for part in parts:
                 self.reg(part if var.get("whole_frame") else part[keycols])
@@ -340,7 +403,7 @@ def oracle_sims(obs):
     ra, rb = registrations(A["hist"], A["batches"]), registrations(B["hist"], B["batches"])
     for k in ra.keys() & rb.keys():
         a, b = ra[k], rb[k]
-        if a["t"] != b["t"] or not (a["unique"] and b["unique"]):
+        if a["t"] != b["t"] or a["cls"] != b["cls"] or not (a["unique"] and b["unique"]):
             continue
         da = {(t, i): v for t, i, v in A["draws"].get(str(a["sim"]), [])}
         db = {(t, i): v for t, i, v in B["draws"].get(str(b["sim"]), [])}
@@ -389,6 +452,18 @@ class C04(Prop):
             # the key exists in both runs but is registered at different clock times: nothing is claimed
             {"kind": "pair", "mode": "other-time", "a": A, "b": dict(A, batches=[dict(A["batches"][0], t=["time", T0 + DAY])])},
         ]
+        # LESSONS.md 13 / seeded C04-3 at IndexMap level: the same three integer ages are registered after a float cohort (A) and
+        # after an integer cohort (B); the same three microsecond times after a nanosecond batch (A) and alone (B)
+        t1 = ["time", T0 + DAY]
+        ages = {"t": t1, "sims": [10, 11, 12], "keys": [[30.0], [40.0], [50.0]], "repr": ["int64"], "get": None}
+        out.append({"kind": "pair", "mode": "history", "a": {"size": 1009, "cols": ["float"], "tunit": "ns", "batches": [
+                        {"t": t, "sims": [0, 1, 2], "keys": [[20.5], [31.25], [47.75]], "get": None}, ages]},
+                    "b": {"size": 1009, "cols": ["float"], "tunit": "ns", "batches": [
+                        {"t": t, "sims": [0, 1, 2], "keys": [[20.0], [31.0], [47.0]], "repr": ["int64"], "get": None}, dict(ages, sims=[5, 3, 4], repr=["int32"])]}})
+        times = {"t": t1, "sims": [10, 11, 12], "keys": [[T0 + 40 * DAY], [T0 + 41 * DAY], [T0 + 42 * DAY]], "repr": ["us"], "get": None}
+        out.append({"kind": "pair", "mode": "history", "a": {"size": 1009, "cols": ["time"], "tunit": "ns", "batches": [
+                        {"t": t, "sims": [0, 1], "keys": [[T0], [T0 + DAY]], "repr": ["ns"], "get": None}, times]},
+                    "b": {"size": 1009, "cols": ["time"], "tunit": "ns", "batches": [dict(times, sims=[2, 1, 0])]}})
         # F31: the key column is called 'simulant_index' in run A, in run B, in both
         An = dict(A, names=["simulant_index"])
         Bn = dict(A, names=["simulant_index"], batches=[dict(A["batches"][0], sims=[40, 7, 19, 3, 88, 5], keys=[[4], [6], [1], [5], [2], [3]])])
@@ -396,6 +471,14 @@ class C04(Prop):
                 {"kind": "pair", "mode": "permute", "a": An, "b": Bn}]
         out.append({"kind": "sims", "keycols": ["k3", "k1"], "pop": [5, 3], "births": [1, 2], "steps": 3, "map_size": 59, "seed": 5,
                     "perm": [None, 4], "f31": [True, False]})
+        # seeded C04-3's scenario: a cohort with fractional (float) ages vs one in whole years (integers); both admit the same
+        # immigrants with integer ages; entrance time + age are the keys; and the same with nanosecond cohort entrance times
+        out.append({"kind": "sims", "keycols": ["k2", "k1"], "pop": [5, 5], "births": [3, 3], "steps": 3, "map_size": 1009, "seed": 1,
+                    "perm": [None, None], "hetero": {"imm": "int64", "runs": [{"cohort": "frac"}, {"cohort": "int64"}]}})
+        out.append({"kind": "sims", "keycols": ["k1"], "pop": [4, 6], "births": [2, 3], "steps": 2, "map_size": 211, "seed": 2,
+                    "perm": [3, None], "hetero": {"imm": "int64", "runs": [{"cohort": "float64", "cohort_time_ns": True}, {"cohort": "frac"}]}})
+        out.append({"kind": "sims", "keycols": ["k2", "k3"], "pop": [3, 3], "births": [2, 2], "steps": 3, "map_size": 307, "seed": 3,
+                    "perm": [None, None], "hetero": {"imm": "float64", "runs": [{"cohort": "frac", "cohort_time_ns": True}, {"cohort": "frac"}]}})
         out.append({"kind": "sims", "keycols": ["k1"], "pop": [6, 6], "births": [1, 3], "steps": 5, "map_size": 61, "seed": 3, "perm": [None, None]})
         out.append({"kind": "sims", "keycols": ["k1"], "pop": [6, 6], "births": [1, 3], "steps": 5, "map_size": 1009, "seed": 3, "perm": [None, 5]})
         out.append({"kind": "sims", "keycols": ["k3", "k2"], "pop": [4, 9], "births": [2, 2], "steps": 3, "map_size": 101, "seed": 0, "perm": [2, None]})
@@ -418,23 +501,28 @@ class C04(Prop):
                     "map_size": rng.choice(ic.coprime_sizes(len(ncols_choice), lo, lo + 40)), "seed": rng.randint(0, 9),
                     "perm": [rng.choice([None, rng.randint(0, 99)]), rng.choice([None, rng.randint(0, 99)])],
                     "clock": rng.choice(["datetime", "datetime", "simple"]), "variant": var,
-                    "f31": [("k3" in ncols_choice and rng.random() < 0.5) for _ in (0, 1)]}
-        mode = rng.choice(["permute", "relabel", "relabel-affine", "subset", "superset", "mixed", "mixed", "mixed"])
+                    "f31": [("k3" in ncols_choice and rng.random() < 0.5) for _ in (0, 1)],
+                    "hetero": ({"imm": rng.choice(["int64", "int64", "float64"]),
+                                "runs": [{"cohort": rng.choice(["frac", "frac", "int64", "float64", "int32"]), "cohort_time_ns": rng.random() < 0.5}
+                                         for _ in (0, 1)]} if "k1" in ncols_choice and rng.random() < 0.5 else None)}
+        mode = rng.choice(["permute", "relabel", "relabel-affine", "subset", "superset", "mixed", "mixed", "mixed", "history", "history"])
         # the shape of history A (LESSONS.md 9): plain, a dense first batch followed by single newcomers, a small block filled
         # (almost) completely, or aimed collision chains with bystanders exactly where the re-hashes land (seeded C04-1)
-        shape = rng.choice(["plain"] * 4 + ["trickle"] * 2 + ["chain"] * 3 + (["dense"] if mode in ("permute", "relabel", "relabel-affine", "subset") else []))
+        shape = rng.choice(["plain"] * 4 + ["trickle"] * 2 + ["chain"] * (3 if mode != "history" else 0) + (["dense"] if mode in ("permute", "relabel", "relabel-affine", "subset") else []))
         # single key columns get extra weight: that is where key/position re-attachment went wrong (F4)
         types = [rng.choice(["int", "int", "float", "time"])] if rng.random() < 0.45 and shape != "chain" else None
         room = 1.0 if shape == "dense" else 0.85
         while True:
             size = None if shape == "dense" else rng.choice(ic.coprime_sizes(6, 8 if shape == "chain" else 5, (60 if shape == "chain" else 110) if tier == "quick" else 400))
             A = c03.gen_history(rng, tier, dup_rate=0.05 if mode == "mixed" else 0.0, types=types, size=size,   # sizes coprime for 1, 2 and 3 columns
-                                n_batches=None if shape in ("trickle", "dense") else rng.randint(1, 4), mode=shape)
+                                n_batches=None if shape in ("trickle", "dense") else rng.randint(2 if mode == "history" else 1, 4), mode=shape,
+                                hetero_rate=0.8 if mode == "history" else None)
             if shape == "dense" and ic.math.gcd(A["size"], 6 * ic.SPREAD) != 1:
                 continue
             for b in A["batches"]:
                 b["get"] = None
                 b.pop("get_kind", None)
+                b.pop("get_repeats", None)
             B = derive(rng, A, mode)
             if max(total_keys(A), total_keys(B)) <= room * A["size"]:      # the block must not overflow (F11)
                 break
@@ -532,6 +620,21 @@ class C04(Prop):
                 t.append(f"simulant_index-column:run-{side.upper()}")
         if case["kind"] == "sims":
             t += [f"simulant_index-column:run-{'AB'[w]}" for w in (0, 1) if (case.get("f31") or [False, False])[w]]
+        for side in ("a", "b"):
+            tg = c03.history_tags(obs[side]["hist"], obs[side]["batches"])
+            t += sorted({f"run-{side.upper()}:{x}" for x in tg if x.startswith("representation-change")})
+            if any(x.startswith("repeat:batch") for x in tg):
+                t.append("repeat:batch-verbatim")
+        ra_, rb_ = registrations(obs["a"]["hist"], obs["a"]["batches"]), registrations(obs["b"]["hist"], obs["b"]["batches"])
+        ha, hb = obs["a"]["hist"], obs["b"]["hist"]
+        cls_hist = lambda h: [ic.batch_classes(h, b) for b in h["batches"] if b["sims"] and not b.get("bad")]     # noqa: E731
+        if cls_hist(ha) != cls_hist(hb) and (len(set(cls_hist(ha))) > 1 or len(set(cls_hist(hb))) > 1):
+            t.append("representation-history-differs-between-runs")
+        if any(ra_[k]["cls"] != rb_[k]["cls"] for k in ra_.keys() & rb_.keys()):
+            t.append("shared-values-other-representation(not-compared)")
+        if case["kind"] == "sims" and case.get("hetero"):
+            t.append("sims:hetero imm=" + case["hetero"]["imm"])
+            t += [f"sims:cohort={r['cohort']}" + ("+ns" if r.get("cohort_time_ns") else "") for r in case["hetero"]["runs"]]
         if case["kind"] == "pair":
             t.append("shape:" + case.get("shape", "boundary"))
             solo = obs.get("solo") or []
